@@ -11,6 +11,7 @@ import (
 
 	"github.com/btcsuite/btcd/btcec/v2"
 	"github.com/btcsuite/btcd/btcutil"
+	"github.com/btcsuite/btcd/btcutil/psbt"
 	"github.com/btcsuite/btcd/chaincfg/chainhash"
 	"github.com/btcsuite/btcd/txscript"
 	"github.com/btcsuite/btcd/wire"
@@ -115,7 +116,7 @@ func (w *spWorld) add(class, what string, obs, exp interface{}) {
 
 // which classes a property owns
 var spOwns = map[string]map[string]bool{
-	"C06": {"inputs": true, "sig": true, "refusal": true, "eligibility": true},
+	"C06": {"inputs": true, "sig": true, "refusal": true, "eligibility": true, "psbt-refusal": true},
 	"C20": {"state": true, "resend": true, "answer": true},
 }
 
@@ -199,7 +200,9 @@ func replaySpend(idx int, line []byte, prop string, seed int, root string, rep *
 				rep.AddError("trace %d step %d: %v %v %v", idx, si, d[1], d[2], d[3])
 				return
 			}
-			diverged = true
+			if class != "psbt-refusal" && class != "sig" {
+				diverged = true // the wallet's state may differ from the model's from here on
+			}
 			if spOwns[prop][class] {
 				report(si, d)
 			}
@@ -520,6 +523,40 @@ func (w *spWorld) apply(st *spStep, a *spArgs, rep *common.Report) error {
 				w.checkCreated(what, tx, amount, a.Ins, true, a.Elig, a)
 			}
 			w.recordSend(a.N, tx)
+		}
+	case "FundOwn":
+		scope := scopeOf[a.Scope]
+		what := fmt.Sprintf("FundPsbt with caller-chosen inputs (acct %d, %s, minconf %d)", a.Acct, a.Scope, a.Mc)
+		var ins []*wire.OutPoint
+		var seqs []uint32
+		for _, c := range sorted(a.Sel) {
+			op := w.opOf[c]
+			ins = append(ins, &op)
+			seqs = append(seqs, wire.MaxTxInSequenceNum)
+		}
+		amount := w.sumVal(a.Sel) - margin(9)
+		pkt, err := psbt.New(ins, []*wire.TxOut{wire.NewTxOut(amount, w.foreign)}, 2, 0, seqs)
+		if err != nil {
+			return err
+		}
+		_, err = e.w.FundPsbt(pkt, &scope, int32(a.Mc), uint32(a.Acct), 1000, wallet.CoinSelectionLargest)
+		got := "ok"
+		if err != nil {
+			got = "refused"
+		}
+		w.n++
+		if got != st.Ret {
+			w.add("psbt-refusal", what+" with inputs "+fmt.Sprint(sorted(a.Sel))+" (eligible: "+fmt.Sprint(sorted(a.Elig))+")", fmt.Sprintf("%s (%v)", got, err), st.Ret)
+			return nil
+		}
+		if err == nil {
+			var ops []wire.OutPoint
+			for _, in := range pkt.UnsignedTx.TxIn {
+				ops = append(ops, in.PreviousOutPoint)
+			}
+			if g := w.coinIDs(ops); fmt.Sprint(g) != fmt.Sprint(sorted(a.Sel)) {
+				w.add("inputs", what+": inputs of the funded packet", g, sorted(a.Sel))
+			}
 		}
 	case "DryRun":
 		scope := scopeOf[a.Scope]
